@@ -317,6 +317,11 @@ def run(tier, res, force_search=False, measure=False):
     res.notes.append("level: proof, PARTIAL for the quantitative clause 'at most a small fraction of the original bias' (empirical-CDF methods at "
                      "unequal sizes, seasonal windows): Props.C01 proves range bounds and the per-window formulas only; that clause is decided by the "
                      "oracle on the real code (res.extra['oracle'])")
+    res.notes.append(
+        "clauses decided by the oracle on the real code only (the value-level model cannot exhibit them): in-place modification of the caller's "
+        "arrays between consecutive calls ('sequence' cases; numpy aliasing — the model's functions are pure; C12 models the write sites), input "
+        "dtype conversion and the process pool of apply() (C14 / C05 model the check sequence and the write-back order), the time-axis encodings "
+        "(trusted calendar arithmetic), float rounding of index arithmetic on long samples (floor((n-1)q) at an integer: exact in the model)")
     lean_ok = C.lean_phase(res, PROP, GEN, TARGETS)
 
     # ---- tier B
